@@ -5,6 +5,7 @@ import DiskfsModel.Model.Ext4.InodeAttrBytes
 import DiskfsModel.Model.Ext4.InodeWriteBack
 import DiskfsModel.Model.MetaRR
 import DiskfsModel.Model.MetaSqfs
+import DiskfsModel.Model.MetaSqXattr
 import DiskfsModel.Generated.Meta
 namespace Driver.Meta
 open Diskfs Driver Diskfs.Meta Diskfs.Ext4.InodeCodec
@@ -213,6 +214,14 @@ def ext4rmw (args : List String) : String :=
       | _ => writeBack keep b
     s!"after={toHex (blankCsum after)}"
 
+/-- meta.sqxattr data=<key/value bytes, hex> pos= count= : xAttrTable.find for one id entry → the attributes in walk order -/
+def sqxattr (args : List String) : String :=
+  let data := (argHex args "data").getD []
+  let hx := fun (b : Bytes) => if b.isEmpty then "-" else toHex b
+  match Diskfs.Meta.SqXattr.find true data (n args "pos") (n args "count") with
+  | none => "err"
+  | some kvs => s!"n={kvs.length}\tkv={",".intercalate (kvs.map fun (k, v) => hx k ++ ":" ++ hx v)}"
+
 end Driver.Meta
 
 def main : IO Unit := Driver.runLoop fun op args =>
@@ -236,4 +245,5 @@ def main : IO Unit := Driver.runLoop fun op args =>
   | "meta.sqidblk" => Driver.Meta.sqidblk args
   | "meta.sqx" => Driver.Meta.sqx args
   | "meta.ext4rmw" => Driver.Meta.ext4rmw args
+  | "meta.sqxattr" => Driver.Meta.sqxattr args
   | _ => "unknown-op"
